@@ -468,6 +468,28 @@ Spans of submodels differ:
         if submodels is None:
             submodels = list(self.__dict__['submodels'].keys())
 
+        # Optionally copy initial values from another period, as
+        # `BaseModel.solve_t()` does: the linker's own endogenous variables and
+        # those of the submodels to solve
+        if offset:
+            if not 0 <= t_check + offset < len(self.span):
+                raise IndexError(
+                    f'`offset` argument ({offset}) points to a period outside '
+                    f'the span: position {t_check + offset}'
+                )
+
+            for name in submodels:
+                if name not in self.__dict__['submodels']:
+                    raise KeyError(f"'{name}' not found in list of submodels")
+
+            for variable in self.endogenous:
+                self.__dict__['_' + variable][t] = self.__dict__['_' + variable][t + offset]
+
+            for name in submodels:
+                submodel = self.__dict__['submodels'][name]
+                for variable in submodel.endogenous:
+                    submodel.__dict__['_' + variable][t] = submodel.__dict__['_' + variable][t + offset]
+
         def get_check_values() -> Dict[Hashable, np.ndarray]:
             """Return NumPy arrays of variable values for the current period, for checking."""
             check_values = {
